@@ -27,6 +27,15 @@ func refNames(b []byte) (names [][][]byte, status int) {
 	n := len(b)
 	p := 0
 	var cur [][]byte
+	// RFC 1035 §2.3.4: a name is at most 255 octets on the wire (one length octet per label plus
+	// the terminating zero), however its labels are reached.
+	tooLong := func() bool {
+		w := 1
+		for _, lab := range cur {
+			w += 1 + len(lab)
+		}
+		return w > 255
+	}
 	for {
 		if p >= n {
 			if len(cur) > 0 {
@@ -68,6 +77,9 @@ func refNames(b []byte) (names [][][]byte, status int) {
 					return nil, refReject // truncated label
 				}
 				cur = append(cur, b[q+1:q+1+ll])
+				if tooLong() {
+					return nil, refReject
+				}
 				q += 1 + ll
 			}
 			names = append(names, cur)
@@ -78,6 +90,9 @@ func refNames(b []byte) (names [][][]byte, status int) {
 				return nil, refReject
 			}
 			cur = append(cur, b[p+1:p+1+l])
+			if tooLong() {
+				return nil, refReject
+			}
 			p += 1 + l
 		default:
 			return nil, refUndefined // 64..191: reserved label types
